@@ -41,6 +41,17 @@ type op struct {
 
 func (o op) String() string { return o.kind + "{" + strings.Join(o.states, ",") + "}" }
 
+// struct-bound handlers: two INSTANCES of one type, each with its own tag and veto
+type sh struct {
+	tag   string
+	log   *[]string
+	vetoB bool
+}
+
+func (h *sh) AEnter(e *am.Event) bool { *h.log = append(*h.log, h.tag+":AEnter"); return true }
+func (h *sh) AState(e *am.Event)      { *h.log = append(*h.log, h.tag+":AState") }
+func (h *sh) BEnter(e *am.Event) bool { *h.log = append(*h.log, h.tag+":BEnter"); return !h.vetoB }
+
 func sorted(s []string) []string { c := append([]string{}, s...); sort.Strings(c); return c }
 
 func main() {
@@ -164,6 +175,38 @@ func main() {
 				hs = append(hs, o.String())
 			}
 			failing = append(failing, "history "+strings.Join(hs, " ")+" => "+bad)
+		}
+	}
+	// every binding is called, in binding order, with its own receiver; any veto cancels
+	for veto := 0; veto < 3; veto++ {
+		total++
+		ctx, cancel := context.WithCancel(context.Background())
+		m := am.New(ctx, am.Schema{"A": {}, "B": {}}, &am.Opts{Id: "verif-c05"})
+		var log []string
+		for i, tag := range []string{"h1", "h2"} {
+			if _, err := m.HandlersBind(&sh{tag: tag, log: &log, vetoB: veto == i+1}); err != nil {
+				panic(err)
+			}
+		}
+		bad := ""
+		m.Add1("A", nil)
+		if got := strings.Join(log, " "); got != "h1:AEnter h2:AEnter h1:AState h2:AState" {
+			bad = "Add A called [" + got + "], expected [h1:AEnter h2:AEnter h1:AState h2:AState]"
+		}
+		log = nil
+		res := m.Add1("B", nil)
+		want, wantRes := "h1:BEnter h2:BEnter", am.Executed
+		if veto == 1 {
+			want, wantRes = "h1:BEnter", am.Canceled
+		} else if veto == 2 {
+			wantRes = am.Canceled
+		}
+		if got := strings.Join(log, " "); bad == "" && (got != want || res != wantRes) {
+			bad = fmt.Sprintf("Add B called [%s] and returned %v, expected [%s] and %v", got, res, want, wantRes)
+		}
+		cancel()
+		if bad != "" {
+			failing = append(failing, fmt.Sprintf("two bindings of one struct type, BEnter veto by binding #%d => %s", veto, bad))
 		}
 	}
 	json.NewEncoder(os.Stdout).Encode(map[string]any{"failing": failing, "total": total})
